@@ -53,14 +53,31 @@ func runSolver(ctx context.Context, sp solverSpec, file string, timeoutS, seed i
 	var out bytes.Buffer
 	cmd.Stdout = &out
 	cmd.Stderr = &out
-	_ = cmd.Run() // z3 4.8.12 exits 1 on get-value after unsat: the first line decides
+	runErr := cmd.Run() // z3 4.8.12 exits 1 on get-value after unsat: the output decides
+	if runErr != nil && out.Len() == 0 && ctx.Err() == nil {
+		// the process could not be started (transient resource shortage): try once more
+		time.Sleep(200 * time.Millisecond)
+		cmd = exec.CommandContext(ctx, sp.Cmd, args...)
+		out.Reset()
+		cmd.Stdout = &out
+		cmd.Stderr = &out
+		runErr = cmd.Run()
+		if runErr != nil && out.Len() == 0 {
+			out.WriteString("solver did not start: " + runErr.Error())
+		}
+	}
 	secs := time.Since(start).Seconds()
 	text := out.String()
-	first := strings.TrimSpace(strings.SplitN(text, "\n", 2)[0])
 	st := "unknown"
-	switch first {
-	case "sat", "unsat":
-		st = first
+	for _, ln := range strings.Split(text, "\n") {
+		ln = strings.TrimSpace(ln)
+		if ln == "sat" || ln == "unsat" {
+			st = ln
+			break
+		}
+		if ln == "unknown" || ln == "timeout" {
+			break
+		}
 	}
 	if ctx.Err() != nil && st == "unknown" {
 		st = "cancelled"
